@@ -14,6 +14,8 @@
                                                            interrupt info: which task is folded into the channels,
                                                            which stays pending with which input, which skips its
                                                            pre-handler, which nested checkpoint is kept under which key;
+     gen_resolve_task_agrees, resolve_tasks_is_model        resolveInterruptCompletedTasks over the collected results of a step
+                                                           = first failure, or (subints, reruns, afters) of the model;
      gen_interrupt_dest_agrees, gen_tail_agrees,
      gen_call_sites_agree                                  where the checkpoint goes, and what run calls the handlers with.
 
@@ -30,17 +32,17 @@ Lemma if_same_ph_c05 : forall {V} (ph : bool -> V) (b : bool), (if b then ph tru
 Proof. intros V ph []; reflexivity. Qed.
 
 (* ---------------------------------------------------------------- translated = the model's reading *)
-Theorem gen_plain_assembly_agrees : forall V CS GS SCP SINFO (own : option GS) hb ha (next : list (atask V)) (cs : CS),
-  Gen.CheckpointAssembly.plain_assembly V CS GS SCP SINFO own hb ha next cs = model_plain own hb ha next cs.
+Theorem gen_plain_assembly_agrees : forall V CS GS SCP SINFO isnil (own : option GS) hb ha (next : list (atask V)) (cs : CS),
+  Gen.CheckpointAssembly.plain_assembly V CS GS SCP SINFO isnil own hb ha next cs = model_plain own hb ha next cs.
 Proof.
   intros. first [ reflexivity |
   unfold Gen.CheckpointAssembly.plain_assembly, model_plain, puts, set_puts; simpl;
   rewrite ?app_nil_r; reflexivity ].
 Qed.
 
-Theorem gen_rerun_assembly_agrees : forall V CS GS SCP SINFO fold ph isStream (own : option GS) rr
+Theorem gen_rerun_assembly_agrees : forall V CS GS SCP SINFO isnil fold ph isStream (own : option GS) rr
     (subs : list (N * (SCP * SINFO))) ha (completed : list (atask V)) hb pending (cs : CS),
-  Gen.CheckpointAssembly.rerun_assembly V CS GS SCP SINFO fold ph isStream own rr subs ha completed hb pending cs
+  Gen.CheckpointAssembly.rerun_assembly V CS GS SCP SINFO isnil fold ph isStream own rr subs ha completed hb pending cs
   = model_rerun fold ph isStream own rr subs ha completed hb pending cs.
 Proof.
   intros. first [ reflexivity |
@@ -52,6 +54,15 @@ Qed.
 Theorem gen_interrupt_dest_agrees : forall isSubGraph hasID,
   Gen.CheckpointAssembly.interrupt_dest isSubGraph hasID = model_dest isSubGraph hasID.
 Proof. intros [] []; reflexivity. Qed.
+
+(* resolveInterruptCompletedTasks, one collected task: what is recorded where, when the loop ends *)
+Theorem gen_resolve_task_agrees : forall V SCP SINFO after_cfg (t : N * @texec V SCP SINFO),
+  Gen.CheckpointAssembly.resolve_task V SCP SINFO after_cfg t = model_resolve_task after_cfg t.
+Proof.
+  intros V SCP SINFO after_cfg [k x]. first [ reflexivity |
+  unfold Gen.CheckpointAssembly.resolve_task, model_resolve_task, asm_mem; destruct x; simpl;
+  try destruct (memN k after_cfg); reflexivity ].
+Qed.
 
 (* what follows the assembly (conversion of the checkpointed streams; to the parent / the store / nowhere) *)
 Theorem gen_tail_agrees : Gen.CheckpointAssembly.assembly_tail = model_tail.
@@ -73,8 +84,8 @@ Section Link.
   Proof. intros pout pending. unfold ptasks. rewrite map_map. simpl. apply map_pair_id_c05. Qed.
 
   (* handleInterrupt called with the tasks [pending] (created, not started: whatever their output field holds) *)
-  Theorem plain_assembly_is_plain_interrupt : forall pout (cs : CS) (gs : GS) (pending : list (N * V)) hb ha,
-    Some (Gen.CheckpointAssembly.plain_assembly V CS GS SCP SINFO (Some gs) hb ha (ptasks pout pending) cs)
+  Theorem plain_assembly_is_plain_interrupt : forall isnil pout (cs : CS) (gs : GS) (pending : list (N * V)) hb ha,
+    Some (Gen.CheckpointAssembly.plain_assembly V CS GS SCP SINFO isnil (Some gs) hb ha (ptasks pout pending) cs)
     = of_sres (@plain_interrupt V CS GS SCP SINFO cs gs pending hb ha).
   Proof. intros. rewrite gen_plain_assembly_agrees. unfold model_plain. rewrite ptasks_inputs. reflexivity. Qed.
 
@@ -127,6 +138,43 @@ Section Link.
     destruct Hin as [E|Hin].
     - inversion E; subst. simpl in H. discriminate.
     - destruct x; simpl in H; try discriminate; apply (IH k e); assumption.
+  Qed.
+
+  (* the loop over the collected results rs of a step is the model's reading of them: the first failure, or the
+     nested interrupts, the nodes asking for a rerun and the interrupt-after nodes among the completed ones *)
+  Lemma resolve_run_model : forall (after_cfg : list N) rs (a : racc SCP SINFO),
+    resolve_run (model_resolve_task after_cfg) rs a =
+    match first_fail rs with
+    | Some e => inl e
+    | None => inr (mk_racc (ra_subs a ++ subints rs) (ra_rerun a ++ reruns rs)
+                           (ra_after a ++ @afters V SCP SINFO after_cfg rs))
+    end.
+  Proof.
+    intros after_cfg rs. unfold first_fail, afters, outs.
+    induction rs as [|[k x] rs IH]; intros a; simpl.
+    - rewrite !app_nil_r. destruct a; reflexivity.
+    - unfold model_resolve_task at 1; simpl. destruct x; simpl; try reflexivity.
+      + rewrite IH. destruct (flat_map _ rs); [|reflexivity].
+        destruct (memN k after_cfg); simpl; unfold set_puts; simpl; rewrite <- ?app_assoc; reflexivity.
+      + rewrite IH. destruct (flat_map _ rs); [|reflexivity].
+        unfold set_puts; simpl; rewrite <- ?app_assoc; reflexivity.
+      + rewrite IH. destruct (flat_map _ rs); [|reflexivity].
+        unfold puts; simpl; rewrite <- ?app_assoc; reflexivity.
+  Qed.
+
+  Theorem resolve_tasks_is_model : forall (after_cfg : list N) rs,
+    resolve_run (Gen.CheckpointAssembly.resolve_task V SCP SINFO after_cfg) rs (mk_racc [] [] []) =
+    match first_fail rs with
+    | Some e => inl e
+    | None => inr (mk_racc (subints rs) (reruns rs) (@afters V SCP SINFO after_cfg rs))
+    end.
+  Proof.
+    intros after_cfg rs.
+    assert (E : forall l a, resolve_run (Gen.CheckpointAssembly.resolve_task V SCP SINFO after_cfg) l a
+                            = resolve_run (model_resolve_task after_cfg) l a).
+    { induction l as [|t l IH]; intros a; simpl; [reflexivity|].
+      rewrite gen_resolve_task_agrees. destruct (model_resolve_task after_cfg t); [apply IH | reflexivity]. }
+    rewrite E, resolve_run_model. reflexivity.
   Qed.
 
   Variable zero : V.
@@ -183,14 +231,14 @@ Section Link.
      collected results R of a step (distinct nodes, none failed), in a call of paradigm isStream whose placeholder
      input is the model's zero *)
   Theorem rerun_assembly_is_rerun_interrupt :
-    forall (fold : CS -> list (N * V) -> res CS) (ph : bool -> V) (isStream : bool) (cs : CS) (gs : GS)
+    forall (isnil : V -> bool) (fold : CS -> list (N * V) -> res CS) (ph : bool -> V) (isStream : bool) (cs : CS) (gs : GS)
            pout (pending : list (N * V)) hb ha,
     ph isStream = zero ->
-    Some (Gen.CheckpointAssembly.rerun_assembly V CS GS SCP SINFO fold ph isStream (Some gs)
+    Some (Gen.CheckpointAssembly.rerun_assembly V CS GS SCP SINFO isnil fold ph isStream (Some gs)
             (reruns R) (subints R) ha (ctasks cin onone R) hb (ptasks pout pending) cs)
     = of_sres (@rerun_interrupt V CS GS SCP SINFO zero fold cs gs R (outs R) pending hb ha).
   Proof.
-    intros fold ph isStream cs gs pout pending hb ha Hph.
+    intros isnil fold ph isStream cs gs pout pending hb ha Hph.
     rewrite gen_rerun_assembly_agrees.
     destruct (asm_lists R (incl_refl R)) as (I1 & I2 & I3 & I4 & I5).
     unfold model_rerun, rerun_interrupt.
@@ -211,7 +259,7 @@ End Link.
 Example rerun_assembly_hypotheses_hold :
   let R : list (N * @texec N N N) := [(2, TDone 7); (3, TRerun); (4, TSub 9 8)] in
   NoDup (map fst R) /\ first_fail R = None /\
-  Gen.CheckpointAssembly.rerun_assembly N (list (N * N)) N N N (fun cs l => Ok (cs ++ l)) (fun _ => 0) true (Some 5)
+  Gen.CheckpointAssembly.rerun_assembly N (list (N * N)) N N N (fun _ => false) (fun cs l => Ok (cs ++ l)) (fun _ => 0) true (Some 5)
       (reruns R) (subints R) [2] (ctasks (fun _ => 11) (fun _ => 12) R) [] (ptasks (fun _ => 13) [(6, 1)]) []
   = AInterrupted (mk_ainfo (Some 5) [] [2] [3] [(4, 8)])
                  (mk_acp [(2, 7)] [(6, 1); (4, 0); (3, 0)] (Some 5) [4] [(4, 9)]).
@@ -224,6 +272,8 @@ Qed.
 Print Assumptions gen_plain_assembly_agrees.
 Print Assumptions gen_rerun_assembly_agrees.
 Print Assumptions gen_interrupt_dest_agrees.
+Print Assumptions gen_resolve_task_agrees.
+Print Assumptions resolve_tasks_is_model.
 Print Assumptions gen_tail_agrees.
 Print Assumptions gen_call_sites_agree.
 Print Assumptions plain_assembly_is_plain_interrupt.
